@@ -6,8 +6,18 @@ arbitrary packets from arbitrary connections at arbitrary times), fail-alls and 
 -/
 import OAP.Proofs.Waiters
 import OAP.Model.PacketErr
+import OAP.Gen.Facts
 namespace OAP.C05
 open OAP OAP.Waiters
+
+/-- T2 structure facts, regenerated from go/client on every run (the operations themselves, in source order): the waiter table is only touched under its mutex; the dispatcher's hand-off is a non-blocking select/send/default; routing order control → push → response -/
+theorem source_order :
+    Gen.seq_client_register = ["c.recvsMu.Lock", "c.recvsMu.Unlock"] ∧
+    Gen.seq_client_unregister = ["c.recvsMu.Lock", "c.recvsMu.Unlock"] ∧
+    Gen.seq_client_handleResponse = ["c.recvsMu.RLock", "defer:c.recvsMu.RUnlock", "select", "send:w.ch", "default"] ∧
+    Gen.seq_client_onPacket = ["c.reconnecting", "c.handleControl", "c.handlePush", "c.handleResponse"] := by
+  decide
+
 
 /-- a call returns only a response that carries ITS OWN request id … and that arrived on the connection its
 request was written to (`own_connection`: a stale response of an old connection cannot satisfy a new call that
@@ -26,15 +36,17 @@ theorem slot_is_own (s : St) (hs : Reachable s) (i c r : Nat) (p : Pkt)
 /-- FIRST WINS: once a response sits in the call's slot, no other action than the call's own replaces it:
 later responses for the same id (duplicates, late answers) are dropped, never delivered elsewhere -/
 theorem first_wins (s s' : St) (a : Act) (i : Nat) (p : Pkt) (hst : step s a = some s')
-    (hf : s.chan i = .full p) : s'.chan i = .full p ∨ (a = .start i) := by
+    (hf : s.chan i = .full p) : s'.chan i = .full p ∨ (∃ k, a = .start i k) ∨ a = .wake i := by
   cases a with
-  | start j =>
+  | start j k =>
     simp only [step] at hst
     split at hst
-    · simp only [Option.some.injEq] at hst; subst hst
-      by_cases hij : i = j
-      · right; rw [hij]
-      · left; simp [upd, hij, hf]
+    · split at hst
+      · simp at hst
+      · simp only [Option.some.injEq] at hst; subst hst
+        by_cases hij : i = j
+        · right; left; exact ⟨k, by rw [hij]⟩
+        · left; simp [upd, hij, hf]
     · simp at hst
   | write j ok =>
     simp only [step] at hst
@@ -57,15 +69,23 @@ theorem first_wins (s s' : St) (a : Act) (i : Nat) (p : Pkt) (hst : step s a = s
       · simp only [Option.some.injEq] at hst; subst hst; exact hf
     · simp only [Option.some.injEq] at hst; subst hst; exact hf
   | wake j =>
-    left
     simp only [step] at hst
     split at hst
     · split at hst
-      · simp only [Option.some.injEq] at hst; subst hst; exact hf
-      · simp only [Option.some.injEq] at hst; subst hst; exact hf
+      · simp only [Option.some.injEq] at hst; subst hst
+        by_cases hij : i = j
+        · right; right; rw [hij]
+        · left; simp [upd, hij, hf]
+      · simp only [Option.some.injEq] at hst; subst hst; left; exact hf
       · simp at hst
     · simp at hst
   | giveUp j =>
+    left
+    simp only [step] at hst
+    split at hst
+    · simp only [Option.some.injEq] at hst; subst hst; exact hf
+    · simp at hst
+  | finish j =>
     left
     simp only [step] at hst
     split at hst
@@ -117,10 +137,10 @@ theorem err_mapping (dec : ErrDecoder) (p : Packet) (hp : p.type = .response) :
 /-! non-vacuity: the stale-response history (the defect D16 of the pinned tree) — a stale response of connection 0
 with id 1 is NOT delivered to the call that reuses id 1 on connection 1 -/
 example :
-    (run init [.start 7, .write 7 true, .failAll, .newConn, .wake 7,   -- call 7 on conn 0 fails
-               .start 8, .write 8 true,                                   -- call 8 takes id 1 on conn 1
+    (run init [.start 7 1, .write 7 true, .failAll, .newConn, .wake 7, .finish 7,   -- call 7 on conn 0 fails
+               .start 8 1, .write 8 true,                                   -- call 8 takes id 1 on conn 1
                .dispatch ⟨0, 1, 99⟩,                                      -- stale answer from conn 0
-               .dispatch ⟨1, 1, 42⟩, .dispatch ⟨1, 1, 43⟩, .wake 8]).map (fun s => (s.call 7, s.call 8))
+               .dispatch ⟨1, 1, 42⟩, .dispatch ⟨1, 1, 43⟩, .wake 8, .dispatch ⟨1, 1, 44⟩, .finish 8]).map (fun s => (s.call 7, s.call 8))
       = some (.done 0 1 none, .done 1 1 (some ⟨1, 1, 42⟩)) := by
   decide
 
